@@ -528,3 +528,23 @@ B("C20", "member model centres explicitly", BOOT, "                n_modes=n_mod
 M("C04", "transform rotates with R", ER, '        RinvT = self._compute_rot_mat_inv_trans(R, input_dims=("mode_m", "mode_n"))', "        RinvT = R", "AGREE.rotation")
 M("C04", "cross transform rotates with R", CR, '        RinvT = self._compute_rot_mat_inv_trans(\n            rot_matrix, input_dims=("mode_m", "mode_n")\n        )\n        RinvT = RinvT.rename({"mode_n": "mode"})\n\n        scaling', '        RinvT = rot_matrix\n        RinvT = RinvT.rename({"mode_n": "mode"})\n\n        scaling', "AGREE.rotation")
 M("C03", "whitening inverse labelled like the forward matrix", WH, 'output_core_dims=[[self.feature_name, "mode"], ["mode", self.feature_name]],', 'output_core_dims=[[self.feature_name, "mode"], [self.feature_name, "mode"]],', "MIRROR.whitener.labels")
+M("C10", "sample cut uses the whole window length", EEOF, "        n_samples_cut = (embedding - 1) * tau\n        n_samples_keep = X.coords[self.sample_name].size - n_samples_cut\n", "        window = embedding * tau\n        n_samples_keep = X.coords[self.sample_name].size - window + 1\n", "SPECIAL.embed.keep")
+M("C01", "sample cut keeps one incomplete window", EEOF, "        n_samples_cut = (embedding - 1) * tau\n", "        n_samples_cut = (embedding - 1) * tau - 1\n", "WIRE.extended.window")
+B("C10", "sample cut spelt as N - e*t + t", EEOF, "        n_samples_cut = (embedding - 1) * tau\n        n_samples_keep = X.coords[self.sample_name].size - n_samples_cut\n", "        n_all = X.coords[self.sample_name].size\n        n_samples_keep = n_all - embedding * tau + tau\n")
+B("C01", "sample cut spelt as N - e*t + t", EEOF, "        n_samples_cut = (embedding - 1) * tau\n        n_samples_keep = X.coords[self.sample_name].size - n_samples_cut\n", "        n_all = X.coords[self.sample_name].size\n        n_samples_keep = n_all - embedding * tau + tau\n")
+M("C07", "list elements split in sorted key order", CO, "        for i, coords in enumerate(self.coords_in.values()):\n", "        for i, key in enumerate(sorted(self.coords_in)):\n            coords = self.coords_in[key]\n", "LAYOUT.index_keys")
+M("C02", "list elements split in sorted key order", CO, "        for i, coords in enumerate(self.coords_in.values()):\n", "        for i, key in enumerate(sorted(self.coords_in)):\n            coords = self.coords_in[key]\n", "MIRROR.state.concat.index_keys")
+B("C07", "list elements split in numeric key order", CO, "        for i, coords in enumerate(self.coords_in.values()):\n", "        for i, key in enumerate(sorted(self.coords_in, key=int)):\n            coords = self.coords_in[key]\n")
+M("C13", "list transformers rebuilt in sorted key order", PREP, "                for transformer in dt[name].transformers.values():\n                    deserialized = preprocessor.transformer_types()[name].deserialize(\n                        transformer\n                    )\n", "                dt_list = dt[name].transformers\n                for key in sorted(dt_list.keys()):\n                    deserialized = preprocessor.transformer_types()[name].deserialize(\n                        dt_list[key]\n                    )\n", "SERIAL.index_keys")
+M("C02", "transform stacks in the order of the incoming dimensions", ST, "        feature_dims = self.dims_mapping[self.feature_name]\n        da: DataArray = self._stack(", "        feature_dims = tuple(dim for dim in X.dims if dim not in sample_dims)\n        da: DataArray = self._stack(", "MIRROR.state.stack.transform_dims")
+B("C02", "transform reads the recorded dims through one local", ST, "        sample_dims = self.dims_mapping[self.sample_name]\n        feature_dims = self.dims_mapping[self.feature_name]\n        da: DataArray = self._stack(", "        recorded = self.dims_mapping\n        sample_dims = recorded[self.sample_name]\n        feature_dims = recorded[self.feature_name]\n        da: DataArray = self._stack(")
+M("C08", "coslat weights cast to the dtype of the data", XU, "        weights = sqrt_cos_lat_weights(latitudes)\n", "        weights = sqrt_cos_lat_weights(latitudes).astype(data.dtype)\n", "WIRE.stats.coslat.carried")
+M("C08", "coslat weights rounded when stored", SC, "            self.coslat_weights_: DataVar = compute_sqrt_cos_lat_weights(\n                data=X, feature_dims=self.feature_dims\n            )", "            self.coslat_weights_: DataVar = compute_sqrt_cos_lat_weights(\n                data=X, feature_dims=self.feature_dims\n            ).round(3)", "WIRE.stats.coslat.carried")
+B("C08", "coslat weights named through rename", XU, '        weights.name = "coslat_weights"\n        return weights\n', '        return weights.rename("coslat_weights")\n')
+M("C15", "dask seed falls back on solver_kwargs when falsy", DEC, '                "seed": self.random_state,\n            }\n            solver_kwargs.setdefault("compute", self.compute)', '                "seed": self.random_state or self.solver_kwargs.get("seed"),\n            }\n            solver_kwargs.setdefault("compute", self.compute)', "RNG.seed.truthiness")
+M("C15", "seed passed only when truthy", SVD, '                "seed": self.random_state,\n            }\n            solver_kwargs.setdefault("compute", False)', '                "seed": self.random_state if self.random_state else None,\n            }\n            solver_kwargs.setdefault("compute", False)', "RNG.seed.truthiness")
+B("C15", "seed tested against None", DEC, '                "seed": self.random_state,\n            }\n            solver_kwargs.setdefault("compute", self.compute)', '                "seed": self.random_state if self.random_state is not None else None,\n            }\n            solver_kwargs.setdefault("compute", self.compute)')
+M("C12", "rotator reads the compute switch from the metadata dict", ER, '            compute=self._params["compute"],\n            **promax_kwargs,', '            compute=self.attrs["compute"],\n            **promax_kwargs,', "LAZY.flag.attrs")
+M("C14", "rotator reads the compute switch from the metadata dict", ER, '            compute=self._params["compute"],\n            **promax_kwargs,', '            compute=self.attrs["compute"],\n            **promax_kwargs,', "HIST.attrs.read")
+B("C14", "rotator reads a number from the metadata dict", ER, '        rtol = self._params.get("rtol")\n', '        rtol = self.attrs["rtol"]\n')
+M("C06", "rotator counts the samples the sanitizer saw", ER, '        n_samples = model.data["input_data"].coords[self.sample_name].size\n', "        n_samples = self.preprocessor.sanitizer.transformers[0].sample_coords.size\n", "REINSERT.count")
